@@ -112,8 +112,16 @@ def seq_eq_const(exe, seq, text):
     return z3.And([c == ord(ch) for c, ch in zip(seq.items, text)]) if text else z3.BoolVal(True)
 
 
+def strval(exe, path, v):
+    """string-like value behind references / Cow wrappers"""
+    v = exe.deref_all(path, v)
+    while isinstance(v, Agg) and v.name == 'Cow' and 0 in v.fields:
+        v = exe.deref_all(path, v.fields[0])
+    return v
+
+
 def str_eq(exe, path, a, b):
-    a, b = exe.deref_all(path, a), exe.deref_all(path, b)
+    a, b = strval(exe, path, a), strval(exe, path, b)
     if isinstance(a, SeqV) and isinstance(b, SeqV):
         if len(a.items) != len(b.items):
             return z3.BoolVal(False)
@@ -127,7 +135,7 @@ def str_eq(exe, path, a, b):
     raise MirUnsupported('str eq of %r and %r' % (a, b))
 
 
-@contract(r'<&?str as PartialEq>::eq$|<str as PartialEq>::eq$|<&str as PartialEq<&str>>::eq|<String as PartialEq<&?str>>::eq|<String as PartialEq<str>>::eq|<\[u8\] as PartialEq>::eq|<&\[u8\] as PartialEq>::eq|<&?\[u8\] as PartialEq<&?\[u8; \d+\]>>::eq|<&\[u8\] as PartialEq<&\[u8; \d+\]>>::eq')
+@contract(r"<Cow<'_, str> as PartialEq<.*>>::eq$|<&?str as PartialEq<Cow<'_, str>>>::eq$|<&?str as PartialEq>::eq$|<str as PartialEq>::eq$|<&str as PartialEq<&str>>::eq|<String as PartialEq<&?str>>::eq|<String as PartialEq<str>>::eq|<\[u8\] as PartialEq>::eq|<&\[u8\] as PartialEq>::eq|<&?\[u8\] as PartialEq<&?\[u8; \d+\]>>::eq|<&\[u8\] as PartialEq<&\[u8; \d+\]>>::eq")
 def c_str_eq(exe, path, callee, args, dst_ty):
     return [('ret', path, str_eq(exe, path, args[0], args[1]))]
 
@@ -553,3 +561,61 @@ def into_iter_ident(exe, path, callee, args, dst_ty):
     if isinstance(a, Agg) and a.name == 'SliceIter':
         return [('ret', path, a)]
     return [('ret', path, Agg('SliceIter', None, {0: a, 1: 0}))]
+
+
+@contract(r'core::bool::<impl bool>::then::<')
+def bool_then(exe, path, callee, args, dst_ty):
+    b, clo = args
+    b = z3.simplify(b)
+    outs = []
+    if not z3.is_false(b) and exe.feasible(path, [b]):
+        q = path.clone()
+        q.pc.append(b)
+        outs.append(call_closure(exe, q, clo, [], lambda exe, p, r, d: [('ret', p, some(r))]))
+    if not z3.is_true(b) and exe.feasible(path, [z3.Not(b)]):
+        q = path.clone()
+        q.pc.append(z3.Not(b))
+        outs.append(('ret', q, NONE))
+    return outs
+
+
+@contract(r'core::bool::<impl bool>::then_some::<')
+def bool_then_some(exe, path, callee, args, dst_ty):
+    b, v = args
+    b = z3.simplify(b)
+    outs = []
+    if not z3.is_false(b) and exe.feasible(path, [b]):
+        q = path.clone()
+        q.pc.append(b)
+        outs.append(('ret', q, some(v)))
+    if not z3.is_true(b) and exe.feasible(path, [z3.Not(b)]):
+        q = path.clone()
+        q.pc.append(z3.Not(b))
+        outs.append(('ret', q, NONE))
+    return outs
+
+
+@contract(r'^(std::option::)?Option::<.*>::unwrap_or$')
+def option_unwrap_or(exe, path, callee, args, dst_ty):
+    v, d = args
+    yes, no = fork_variant(exe, path, v, 'Some')
+    outs = []
+    if yes is not None:
+        outs.append(('ret', yes, payload(exe, v, 'Some')))
+    if no is not None:
+        outs.append(('ret', no, d))
+    return outs
+
+
+@contract(r'^std::mem::take::<String>$|^std::mem::take::<Vec<.*>>$')
+def mem_take(exe, path, callee, args, dst_ty):
+    ref = args[0]
+    v = exe.load(path, ref)
+    empty = Agg('Vec', None, {}) if 'Vec' in callee else z3.StringVal('')
+    exe.store_at(path, ref.key, ref.proj, empty)
+    return [('ret', path, v)]
+
+
+@contract(r"<Cow<'_, str> as Deref>::deref$|<Cow<'_, str> as AsRef<str>>::as_ref$|^Cow::<'_, str>::into_owned$|<Cow<'_, str> as ToString>::to_string$")
+def cow_deref(exe, path, callee, args, dst_ty):
+    return [('ret', path, strval(exe, path, args[0]))]
